@@ -6,3 +6,8 @@
 (define-fun str.equal ((a Str) (b Str)) Bool (= a b))
 ; slice helpers
 (define-fun slice.at.u8 ((m (Array Int Bytes)) (s Slice) (i Idx)) (_ BitVec 8) (select (select m (s.rgn s)) (bvadd (s.off s) i)))
+; memory frame: every region that existed before (id < r0) other than `keep` has its old contents
+(define-fun mem.frame.u8 ((m0 (Array Int Bytes)) (m1 (Array Int Bytes)) (r0 Int) (keep Int)) Bool
+  (forall ((r!q Int)) (! (=> (and (< r!q r0) (not (= r!q keep))) (= (select m1 r!q) (select m0 r!q))) :pattern ((select m1 r!q)))))
+(define-fun mem.frame2.u8 ((m0 (Array Int Bytes)) (m1 (Array Int Bytes)) (r0 Int) (keep Int) (keep2 Int)) Bool
+  (forall ((r!q Int)) (! (=> (and (< r!q r0) (not (= r!q keep)) (not (= r!q keep2))) (= (select m1 r!q) (select m0 r!q))) :pattern ((select m1 r!q)))))
